@@ -145,7 +145,7 @@ var plans = map[string]Plan{
 			{Harness: "hbits", Config: "benign", Quick: 560, Thorough: 6000, QuickSec: 140, ThoroughSec: 1800, MemGB: 8},
 			{Harness: "hbits", Config: "errors", Quick: 1000, Thorough: 12000, QuickSec: 80, ThoroughSec: 1000, MemGB: 8},
 			// binaries composed by fq itself over the lazily read file: slices, binary arrays, tobytes(n)/tobits(n)
-			{Harness: "halg", Config: "benign", Quick: 300, Thorough: 5000, QuickSec: 80, ThoroughSec: 1200, MemGB: 8},
+			{Harness: "halg", Config: "benign", Quick: 1000, Thorough: 30000, QuickSec: 80, ThoroughSec: 1200, MemGB: 8},
 		},
 		Rule: "one run = the whole of fq on one corpus sample (<= 24 KiB, the format and -o options its .fqtest command line names) with a tape-chosen bits_format, read-ahead size in {1,7,64,4096,512Ki} and progress precision in {1,16,1024}, a scheduler policy, and a simulated disk giving short reads, zero reads and latency (config errors: also transient/persistent EIO); the program lists for up to 120 or 1500 values path, range, buffer root and the rendering of tobytes and tobits under that bits_format, or writes tobytes of the root / of a byte aligned value raw; oracle (harness side, from the stored bytes): tobytes = bits[start:stop] left padded to a byte, tobits the same bits right padded when rendered as bytes, each of hex/base64/md5/snippet/byte_array/truncate/string recomputed with the Go standard library, raw root = the stored file; under error faults equality or a reported error, never a crash; values inside nested buffers and synthetic values are counted and skipped; distinct = distinct (sample, format, bits_format, schedule) fingerprint; non-trivial = at least one value compared",
 		Real: []string{"the whole of fq through interp.New/Main/Stop", "the real open stack ctxreadseeker -> progressreadseeker -> aheadreadseeker -> IOBitReadSeeker with knobs", "all format decoders the samples need"},
@@ -179,8 +179,8 @@ var plans = map[string]Plan{
 			// system tier: the stack fq's open really builds, read lazily by tobytes/tobits
 			{Harness: "hbits", Config: "benign", Quick: 380, Thorough: 3500, QuickSec: 80, ThoroughSec: 900, MemGB: 8},
 			// sub-ranges, concatenations and zero padded views composed by fq itself (binary arrays, slices) over that stack
-			{Harness: "halg", Config: "benign", Quick: 400, Thorough: 8000, QuickSec: 90, ThoroughSec: 1500, MemGB: 8},
-			{Harness: "halg", Config: "errors", Quick: 400, Thorough: 8000, QuickSec: 60, ThoroughSec: 1000, MemGB: 8},
+			{Harness: "halg", Config: "benign", Quick: 1500, Thorough: 50000, QuickSec: 90, ThoroughSec: 1500, MemGB: 8},
+			{Harness: "halg", Config: "errors", Quick: 1000, Thorough: 30000, QuickSec: 60, ThoroughSec: 1000, MemGB: 8},
 		},
 		Rule: "one run = a tape-drawn reader composition (in-memory bit reader, zero reader, file stack IOBitReadSeeker(ahead?(progress?(ctx?(simulated disk)))) bare or clamped by bitiox.Range, section, multi, clone, byte round trip IOBitReadSeeker(IOReadSeeker(x)), limit) and 10..70 operations on it and its clones (ReadBits, ReadBitsAt, SeekBits start/current/end, ReadFull/ReadAtFull, clone, IOReader/IOReadSeeker byte views with 1..512 byte buffers, bitio.Copy into Buffer and IOBitWriter+Flush) while the simulated disk returns short reads, zero reads, latency and (config errors) transient/persistent EIO and the context is cancelled at a tape-chosen step; oracle: a reference bit-string model per node - count in range, no bit beyond the logical end, returned bits equal the model, EOF only at the logical end, seek results equal the model, byte views and writers equal the model zero padded; under error-class faults an operation may fail but never return wrong bits, and no call blocks forever; distinct = distinct (schedule, operation log) fingerprint; non-trivial = at least three operations executed",
 		Real: []string{"pkg/bitio (all readers, adapters, writer)", "internal/bitiox", "internal/aheadreadseeker", "internal/progressreadseeker", "internal/ctxreadseeker (statement-level yields, simulated channel rendezvous)"},
